@@ -15,7 +15,9 @@ def progTok (s : String) : Option (List Call) :=
     | _ => none)
 
 /-- API program token: `s<id>` = set_global_recorder(recorder id), `e` = emission without local recorder,
-    `x<id>` = emission inside with_local_recorder(local id) -/
+    `x<id>` = emission inside with_local_recorder(local id), `p` = emission whose recorder call panics (caught),
+    `n<k>` = emission whose recorder emits again from inside the call (k levels), `i` = emission from inside the
+    closure handed to with_recorder, `y<id>` = emission under local recorder id whose recorder panics (caught) -/
 def gprogTok (s : String) : Option (List GCall) :=
   if s == "-" then some [] else
   (s.splitOn "+").mapM (fun c =>
@@ -23,11 +25,20 @@ def gprogTok (s : String) : Option (List GCall) :=
     | ['e'] => some GCall.emit
     | 's' :: r => (String.ofList r).toNat?.map GCall.install
     | 'x' :: r => (String.ofList r).toNat?.map GCall.emitLocal
+    | ['p'] => some GCall.emitPanic
+    | ['i'] => some GCall.emitIn
+    | 'n' :: r => (String.ofList r).toNat?.map GCall.emitNested
+    | 'y' :: r => (String.ofList r).toNat?.map GCall.emitLocalPanic
     | _ => none)
+
+def showTarget : Target → String
+  | .noop => "none" | .global r => s!"some{r}" | .localRec l => s!"local{l}"
 
 def showGRes : GRes → String
   | .installed => "ok" | .rejected r => s!"err{r}"
-  | .sent .noop => "none" | .sent (.global r) => s!"some{r}" | .sent (.localRec l) => s!"local{l}"
+  | .sent t => showTarget t
+  | .unwound t => showTarget t ++ "!"
+  | .sentAll ts => "&".intercalate (ts.map showTarget)
 
 def schedTok (s : String) : Option (List Nat) :=
   if s == "-" then some [] else (s.splitOn ".").mapM String.toNat?
